@@ -78,6 +78,7 @@ FaultNext ==
     /\ stg' = stg
     /\ \/ clk < MaxT /\ \E q \in SvcChoices : TickWith(1, q)
        \/ nsub < MaxSub /\ Poll
+       \/ \E qs \in {{"valid"}, {"vprices"}} : PollFail(qs)
        \/ \E r \in subs, res \in {"ok", "err", "chk", "oog"} : (res = "ok" => Len(mempool) < MaxMem) /\ Bcast(r.id, res)
        \/ \E r \in subs, res \in {"found", "timeout"} : TxResult(r.id, res)
        \/ h < MaxH /\ \E d \in 0..par.D, k \in SlotChoices \cup {0} : Block(d, k)
